@@ -470,7 +470,25 @@ func shapeC05(l4 *pkgInfo) []fact {
 		}
 		return true
 	})
+	// packetConn.Read: when the deadline timer ticks, is the stored deadline compared with the clock
+	// again (a tick may be stale: left over from an earlier SetReadDeadline) before reporting a timeout?
+	rechecks := false
+	if rd := l4.findFunc("packetConn", "Read"); rd != nil {
+		ast.Inspect(rd.Body, func(n ast.Node) bool {
+			cc, ok := n.(*ast.CommClause)
+			if !ok || cc.Comm == nil || !contains(cc.Comm, l4, "deadlineTimer.C") {
+				return true
+			}
+			for _, st := range cc.Body {
+				if is, ok := st.(*ast.IfStmt); ok && contains(is.Cond, l4, "isDeadlineExceeded(") && contains(is.Body, l4, "ErrDeadlineExceeded") {
+					rechecks = true
+				}
+			}
+			return true
+		})
+	}
 	return []fact{
+		{"layer4_pc_read_timer_tick_rechecks_deadline", "bool", b2s(rechecks), "packetConn.Read compares the stored deadline with the clock again when the deadline timer ticks (a tick may be stale)"},
 		{"layer4_compile_arms_at_loop_label", "bool", b2s(armsAtLabel && armCalls == 1), "RouteList.Compile arms the matching deadline exactly once, at the `loop:` label (not per read)"},
 		{"layer4_compile_clears_on_match", "bool", b2s(clearsOnMatch), "RouteList.Compile clears the deadline in `if matched` before running the route's handlers"},
 		{"layer4_compile_clears_before_fallback", "bool", b2s(fallbackClears), "RouteList.Compile clears the deadline before the final fallback next.Handle"},
